@@ -111,6 +111,8 @@ func sweepProgram(c *sim.RunCtx, src []byte, wellBehaved bool, gaps []int, nontr
 		k := N % nsch
 		ex := runPS(newInterp(N), src, schs[k], cuts[k], sim.Fault{}, nil)
 		st.Inc("budgeted_runs")
+		st.Inc("fired_budget_interruption")
+		st.Add("sim_ticks", int64(ex.In.NumOps))
 		st.Add("sim_read_calls", int64(ex.Reads))
 		if ex.Calls > 1 {
 			st.Inc("probe_budget_spans_execute_calls")
@@ -503,10 +505,11 @@ func C11() *sim.Check {
 
 	return &sim.Check{
 		Prop: "C11", Harness: "h_budget", Level: "fault_enumeration",
-		Rule:     "sweep/dispatch: for a generated (or hand-written) program P with T=ops(P), the budget is set to every N in 1..T+2 (an injected interruption at logical tick N+1; sampled at 340 points when T>1500), each under one of three drawn delivery schedules and, for programs without stop/currentfile operators, cut into 1-4 Execute calls on one instance; N>=T must reproduce the unbudgeted state exactly, N<T must return ErrExecutionLimitExceeded with NumOps==N+1. distinct_nontrivial counts distinct (program hash, N) with N<T for programs containing a loop and a procedure call, plus one per enumerated limit shape and start-check case. limits: ~75 growth shapes (incl. runaway programs handed to type1.Read / ReadCMap, which set their own budgets) x 2 deliveries in child processes (a Go stack overflow kills only the child). startcheck: all 65536 two-byte prefixes and the 0/1-byte inputs x 3 deliveries (exhaustive), plus random programs with/without header x delivery x call split x faults inside the peek.",
-		Assume:   []string{"sub-clause 'limits' has no schedule in it: it is asserted on a fixed catalogue of growth shapes and reported separately (limit_shapes_run)", "stack caps used as oracle are deliberately generous (70000 / 1000) because the property names no number"},
-		RealStub: map[string]any{"real": []string{"postscript.Interpreter and everything below it (unmodified /repo code)"}, "stub": []string{"program source (SimReader with drawn chunking)", "the caller (budget values, Execute call splits)"}},
-		Batches:  []*sim.Batch{fixedB, start, limits, sweep, startH},
-		Probes:   []string{"probe_budget_spans_execute_calls", "probe_fault_inside_start_peek", "programs_with_eexec", "runaway_programs", "programs_nontrivial"},
+		Rule:        "sweep/dispatch: for a generated (or hand-written) program P with T=ops(P), the budget is set to every N in 1..T+2 (an injected interruption at logical tick N+1; sampled at 340 points when T>1500), each under one of three drawn delivery schedules and, for programs without stop/currentfile operators, cut into 1-4 Execute calls on one instance; N>=T must reproduce the unbudgeted state exactly, N<T must return ErrExecutionLimitExceeded with NumOps==N+1. distinct_nontrivial counts distinct (program hash, N) with N<T for programs containing a loop and a procedure call, plus one per enumerated limit shape and start-check case. limits: ~75 growth shapes (incl. runaway programs handed to type1.Read / ReadCMap, which set their own budgets) x 2 deliveries in child processes (a Go stack overflow kills only the child). startcheck: all 65536 two-byte prefixes and the 0/1-byte inputs x 3 deliveries (exhaustive), plus random programs with/without header x delivery x call split x faults inside the peek.",
+		Assume:      []string{"sub-clause 'limits' has no schedule in it: it is asserted on a fixed catalogue of growth shapes and reported separately (limit_shapes_run)", "stack caps used as oracle are deliberately generous (70000 / 1000) because the property names no number"},
+		RealStub:    map[string]any{"real": []string{"postscript.Interpreter and everything below it (unmodified /repo code)"}, "stub": []string{"program source (SimReader with drawn chunking)", "the caller (budget values, Execute call splits)"}},
+		Batches:     []*sim.Batch{fixedB, start, limits, sweep, startH},
+		SimTimeUnit: "interpreter operations (ticks of the logical clock NumOps) executed in budgeted runs", SimTimeCounters: []string{"sim_ticks"},
+		Probes: []string{"probe_budget_spans_execute_calls", "probe_fault_inside_start_peek", "programs_with_eexec", "runaway_programs", "programs_nontrivial"},
 	}
 }
